@@ -34,7 +34,7 @@ pub fn instr_term(op: &DynOpcode) -> String {
 }
 
 /// input: one hex string per line; output: one `dcase` term per line
-pub fn run(lines: impl Iterator<Item = String>, out: &mut impl Write) {
+pub fn run(_args: &[String], lines: &mut dyn Iterator<Item = String>, out: &mut dyn Write) {
     for line in lines {
         let line = line.trim().to_string();
         let Ok(bytes) = hex::decode(&line) else {
